@@ -12,7 +12,7 @@
 (*    property; it prints one VERDICT line and goes on, so the rest of the *)
 (*    trace is still examined.                                             *)
 (***************************************************************************)
-EXTENDS Grex, TLC, Json, IOUtils
+EXTENDS Algo, TLC, Json, IOUtils
 
 CONSTANT LIMIT      \* largest language (number of words) handled by explicit sets
 
@@ -34,13 +34,38 @@ IsEvent(name) == l <= Len(Rec) /\ Rec[l].ev = name
 (***************************************************************************)
 (* verdict plumbing                                                        *)
 (***************************************************************************)
-Emit(props, kind, extra) ==
+EmitX(props, kind, extra, why) ==
   PrintT(ToJson([verdict |-> kind, props |-> props, g |-> G.g, r |-> run.r,
                  first |-> IF run.firstbad = "" THEN kind ELSE run.firstbad,
-                 widen |-> IF Has(Ev, "widen") THEN Ev.widen ELSE run.widen, extra |-> extra]))
+                 widen |-> IF Has(Ev, "widen") THEN Ev.widen ELSE run.widen,
+                 explained |-> why, extra |-> extra]))
+Emit(props, kind, extra) == EmitX(props, kind, extra, "")
 
 (* Judge: evaluate a check; on failure print a verdict. Always TRUE. *)
 Judge(ok, props, kind, extra) == IF ok THEN TRUE ELSE Emit(props, kind, extra)
+
+(***************************************************************************)
+(* Named deviations (DESIGN.md 3.4).  A language check that fails is       *)
+(* EXPLAINED when the recorded language is exactly what the as-built       *)
+(* transcription (Algo.tla, AsBuilt) predicts for a deviation that was     *)
+(* observed at its call site earlier in the same run:                      *)
+(*   eps-dropped  the minimised automaton lost exactly the empty word      *)
+(*   widen        the trie is the one trie insertion with widening builds  *)
+(* Anything else is unexplained and reported as a new violation.           *)
+(***************************************************************************)
+NoEps(L) == L \ {<<>>}
+ExplBy(L, X, eps, widened, asbuilt) ==
+  IF L = X THEN "ok"
+  ELSE IF eps /\ NoEps(L) = NoEps(X) THEN "eps-dropped"
+  ELSE IF widened /\ L = asbuilt THEN "widen"
+  ELSE IF widened /\ eps /\ NoEps(L) = NoEps(asbuilt) THEN "widen+eps-dropped"
+  ELSE "no"
+Expl(L, X) == ExplBy(L, X, run.eps, run.widened, run.asbuilt)
+JudgeX(why, props, kind) ==
+  IF why = "ok" THEN TRUE ELSE EmitX(props, kind, "", IF why = "no" THEN "" ELSE why)
+(* explanation for per-test-case checks: only the empty test case may fail, and only after eps-dropped *)
+ExplTcs(bad) == IF bad = {} THEN "ok"
+                ELSE IF run.eps /\ \A i \in bad : tcs[i] = <<>> THEN "eps-dropped" ELSE "no"
 
 Bump(kinds) == [k \in DOMAIN cnt \cup kinds |->
                   (IF k \in DOMAIN cnt THEN cnt[k] ELSE 0) + (IF k \in kinds THEN 1 ELSE 0)]
@@ -78,7 +103,8 @@ TRun == /\ IsEvent("run") /\ pc \in {"tcs", "done"} /\ tcs # <<>>
                       judged |-> (size <= LIMIT /\ ~Ev.unstable), size |-> size,
                       pre |-> <<>>, cl |-> <<>>, cl1 |-> <<>>, glang |-> {}, elang |-> {},
                       minimized |-> TRUE, fallback |-> FALSE, sc1 |-> "none", exprs |-> 0,
-                      out |-> [outcome |-> "none"], olang |-> {}, okhir |-> FALSE]
+                      out |-> [outcome |-> "none"], olang |-> {}, okhir |-> FALSE,
+                      eps |-> FALSE, widened |-> FALSE, asbuilt |-> {}]
         /\ pc' = "run" /\ l' = l + 1 /\ cnt' = Bump({"runs"})
         /\ UNCHANGED <<G, tcs, memo>>
 
@@ -139,22 +165,32 @@ TCl2 == /\ IsEvent("cl") /\ pc = "cl1" /\ Ev.phase = 2 /\ Ev.r = run.r
 (***************************************************************************)
 TTrie == /\ IsEvent("trie") /\ pc \in {"cl2", "sc1"} /\ Ev.r = run.r
          /\ LET lang == IF run.judged THEN GraphLang(Ev) ELSE {}
-                ok == ~run.judged \/ (Acyclic(Ev) /\ lang = ClustersLang(run.cl))
-            IN /\ Judge(ok, {"C16"} \cup (IF run.cfg.rep THEN {"C05"} ELSE {}), "trie", "")
+                cl == IF run.judged THEN ClustersLang(run.cl) ELSE {}
+                okA == ~run.judged \/ Acyclic(Ev)
+                asb == IF run.judged /\ lang # cl /\ Ev.widen > 0 THEN TrieLang(run.cl, AsBuilt) ELSE {}
+                why == IF lang = cl THEN "ok"
+                       ELSE IF Ev.widen > 0 /\ lang = asb THEN "widen" ELSE "no"
+            IN /\ Judge(okA, {"C16"}, "trie-cyclic", "")
+               /\ JudgeX(why, {"C16"} \cup (IF run.cfg.rep THEN {"C05"} ELSE {}), "trie")
                /\ run' = [run EXCEPT !.glang = lang, !.widen = Ev.widen,
                                      !.minimized = (pc = "cl2"),
-                                     !.firstbad = FirstBad(ok, "trie")]
+                                     !.widened = (why = "widen"), !.asbuilt = asb,
+                                     !.firstbad = FirstBad(why = "ok" /\ okA, "trie")]
          /\ pc' = IF pc = "cl2" THEN "trie" ELSE "trie2"
-         /\ l' = l + 1 /\ cnt' = Bump({"trie"})
+         /\ l' = l + 1 /\ cnt' = Bump({"trie"} \cup (IF Ev.widen > 0 THEN {"trie-widened"} ELSE {}))
          /\ UNCHANGED <<G, tcs, memo>>
 
 TMin == /\ IsEvent("min") /\ pc = "trie" /\ Ev.r = run.r
         /\ LET lang == IF run.judged THEN GraphLang(Ev) ELSE {}
-               ok == ~run.judged \/ (Acyclic(Ev) /\ lang = run.glang)
+               okA == ~run.judged \/ Acyclic(Ev)
+               why == IF lang = run.glang THEN "ok"
+                      ELSE IF <<>> \in run.glang /\ lang = NoEps(run.glang) THEN "eps-dropped" ELSE "no"
                okS == run.cfg.rep \/ MinShapeOk(Ev)
-           IN /\ Judge(ok, {"C16"}, "min-lang", "")
+           IN /\ Judge(okA, {"C16"}, "min-cyclic", "")
+              /\ JudgeX(why, {"C16"}, "min-lang")
               /\ Judge(okS, {"C16"}, "min-shape", "")
-              /\ run' = [run EXCEPT !.glang = lang, !.firstbad = FirstBad(ok, "min")]
+              /\ run' = [run EXCEPT !.glang = lang, !.eps = (why = "eps-dropped"),
+                                    !.firstbad = FirstBad(why = "ok" /\ okA, "min")]
         /\ pc' = "min" /\ l' = l + 1
         /\ cnt' = Bump({"min"} \cup (IF run.cfg.rep THEN {} ELSE {"min-shape"}))
         /\ UNCHANGED <<G, tcs, memo>>
@@ -164,10 +200,11 @@ TMin == /\ IsEvent("min") /\ pc = "trie" /\ Ev.r = run.r
 (***************************************************************************)
 TExpr == /\ IsEvent("expr") /\ pc \in {"min", "trie2"} /\ Ev.r = run.r
          /\ LET lang == IF run.judged THEN LangOf(Ev.ast) ELSE {}
-                ok == ~run.judged \/ (~Unbounded(Ev.ast) /\ lang = run.glang)
-            IN /\ Judge(ok, {"C16"}, "expr", "")
+                why == IF ~run.judged THEN "ok"
+                       ELSE IF Unbounded(Ev.ast) THEN "no" ELSE Expl(lang, run.glang)
+            IN /\ JudgeX(why, {"C16"}, "expr")
                /\ run' = [run EXCEPT !.elang = lang, !.exprs = @ + 1,
-                                     !.firstbad = FirstBad(ok, "expr")]
+                                     !.firstbad = FirstBad(why = "ok", "expr")]
          /\ pc' = IF pc = "min" THEN "expr" ELSE "expr2"
          /\ l' = l + 1 /\ cnt' = Bump({"expr"})
          /\ UNCHANGED <<G, tcs, memo>>
@@ -190,9 +227,10 @@ TFallback == /\ IsEvent("fallback") /\ pc = "sc2" /\ Ev.r = run.r
 
 TFinal == /\ IsEvent("final") /\ pc \in {"expr", "expr2", "fallback"} /\ Ev.r = run.r
           /\ LET lang == IF run.judged THEN LangOf(Ev.ast) ELSE {}
-                 ok == ~run.judged \/ (~Unbounded(Ev.ast) /\ lang = ClustersLang(run.cl))
-             IN /\ Judge(ok, {"C16"}, "final", "")
-                /\ run' = [run EXCEPT !.elang = lang, !.firstbad = FirstBad(ok, "final")]
+                 why == IF ~run.judged THEN "ok"
+                        ELSE IF Unbounded(Ev.ast) THEN "no" ELSE Expl(lang, ClustersLang(run.cl))
+             IN /\ JudgeX(why, {"C16"}, "final")
+                /\ run' = [run EXCEPT !.elang = lang, !.firstbad = FirstBad(why = "ok", "final")]
           /\ pc' = "final" /\ l' = l + 1 /\ cnt' = Bump({"final"})
           /\ UNCHANGED <<G, tcs, memo>>
 
@@ -213,7 +251,11 @@ Body(hir) == hir    \* bol/eol denote the empty word in LangOf
 TwinLang(c, opt, base, props, lang) ==
   LET m == MemoOf(base) IN
   IF c = base \/ ~m.found \/ ~m.m.judged \/ ~m.m.haslang THEN TRUE
-  ELSE Judge(lang = m.m.lang, props, "twin-" \o opt, "")
+  ELSE LET eps == run.eps \/ m.m.eps
+           w1 == ExplBy(lang, m.m.lang, eps, run.widened, run.asbuilt)
+           \* the twin itself may be the widened one
+           w2 == ExplBy(m.m.lang, lang, eps, m.m.widened, m.m.asbuilt)
+       IN JudgeX(IF w1 # "no" THEN w1 ELSE w2, props, "twin-" \o opt)
 
 TOutPanic ==
   /\ IsEvent("out") /\ pc # "idle" /\ pc # "tcs" /\ pc # "done" /\ Ev.r = run.r
@@ -235,15 +277,16 @@ TOut ==
          unb == hirok /\ Unbounded(o.hir)
          okPrint == ~judged \/ (~unb /\ lang = run.elang)
          expected == IF judged THEN E(tcs, c, G) ELSE {}
-         okExact == ~judged \/ (~unb /\ lang = expected)
-         okSound == ~judged \/ \A i \in DOMAIN tcs : TheWord(tcs[i]) \in lang
+         whyExact == IF ~judged THEN "ok" ELSE IF unb THEN "no" ELSE Expl(lang, expected)
+         whySound == IF ~judged THEN "ok"
+                     ELSE ExplTcs({i \in DOMAIN tcs : TheWord(tcs[i]) \notin lang})
          m == MemoOf(c)
      IN /\ Judge(~o.engine \/ o.compiles, {"C07"} \cup (IF EngineBound(c) THEN {"C01"} ELSE {}),
                  "invalid", IF Has(o, "msg") THEN o.msg ELSE "")
         /\ Judge(~parsed \/ hirok, {"TOOL"}, "hir-outside-fragment", "")
         /\ Judge(okPrint, {"C16", "C06"}, "print", "")
-        /\ Judge(okExact, ExactProps(c), "exact", "")
-        /\ Judge(okSound, {"C01"}, "sound", "")
+        /\ JudgeX(whyExact, ExactProps(c), "exact")
+        /\ JudgeX(whySound, {"C01"}, "sound")
         /\ Judge(~parsed \/ FlagsOk(o, c),
                  (IF c.icase \/ HasI(o) THEN {"C04"} ELSE {}) \cup {"C06"}, "flags", o.flags)
         /\ Judge(~parsed \/ AnchorsOk(o, c), {"C08"}, "anchors", "")
@@ -271,7 +314,8 @@ TOut ==
                               !.firstbad = FirstBad(okPrint, "print")]
         /\ memo' = IF m.found THEN memo
                    ELSE Append(memo, [cfg |-> CfgKey(c), sid |-> o.sid, judged |-> run.judged,
-                                      haslang |-> judged, lang |-> lang,
+                                      haslang |-> judged, lang |-> lang, eps |-> run.eps,
+                                      widened |-> run.widened, asbuilt |-> run.asbuilt,
                                       cps |-> IF Has(o, "cps") THEN o.cps ELSE <<>>])
         /\ cnt' = Bump({"out"} \cup (IF judged THEN {"judged"} ELSE {"unjudged"})
                        \cup (IF c.escape THEN {"escape-form"} ELSE {})
@@ -288,14 +332,15 @@ TObs ==
   /\ IsEvent("obs") /\ pc = "out" /\ Ev.r = run.r
   /\ LET c == run.cfg
          o == run.out
-         okFull == \A i \in DOMAIN tcs : Ev.full[i]
+         whyFull == ExplTcs({i \in DOMAIN tcs : ~Ev.full[i]})
          open == c.nostart \/ c.noend
-         okFind == ~open \/ \A i \in DOMAIN tcs : Ev.find[i] = <<0, Len(tcs[i])>>
+         whyFind == IF ~open THEN "ok"
+                    ELSE ExplTcs({i \in DOMAIN tcs : Ev.find[i] # <<0, Len(tcs[i])>>})
          \* the model's ordered semantics must predict the engine (fidelity of Lang!Find)
          okModel == ~run.okhir \/ \A i \in DOMAIN tcs : Find(o.hir, TheWord(tcs[i])) = Ev.find[i]
          okAgree == ~run.okhir \/ \A i \in DOMAIN tcs : (TheWord(tcs[i]) \in run.olang) = Ev.full[i]
-     IN /\ Judge(okFull, {"C01"}, "engine-full-match", "")
-        /\ Judge(okFind, {"C08"}, "find-span", "")
+     IN /\ JudgeX(whyFull, {"C01"}, "engine-full-match")
+        /\ JudgeX(whyFind, {"C08"}, "find-span")
         /\ Judge(okModel, {"TOOL"}, "find-model-mismatch", "")
         /\ Judge(okAgree, {"TOOL"}, "membership-model-mismatch", "")
         /\ cnt' = Bump({"obs"} \cup (IF open THEN {"find-open"} ELSE {}))
